@@ -19,7 +19,7 @@ def _eq(ctx, what, got, want, inp):
                  f'{np.asarray(want).shape})', dict(inp, expr=what))
 
 
-def run(ctx, rng):
+def run(ctx, rng, model=None):
     n_files = 10 if ctx.quick else 120
     for k in range(n_files):
         n, bs, q = gen.geometry_3d(rng, klass=['default', 'general', 'zslice', None][k % 4], max_voxels=30_000)
@@ -59,6 +59,33 @@ def run(ctx, rng):
                     idx.append(slice(lo, hi, c))
                 _eq(ctx, f'subvolume[{sl}]', lambda: f.subvolume[sl[0], sl[1], sl[2]], V[idx[0], idx[1], idx[2]],
                     dict(inp, slices=[(v.start, v.stop, v.step) for v in sl]))
+                if model is not None:
+                    # K: Model/Emul.subvolumeAxis (range check, coordinate lookup, index step, numpy step) vs the accessor's own
+                    # helpers, per axis, also for subscripts outside the documented grammar (must be refused alike)
+                    acc = f.subvolume
+                    Nn = lambda v: 'N' if v is None else str(int(v))
+                    for name, coords in (('Inline', acc.ilines), ('Crossline', acc.xlines), ('Samples', acc.zslices_int)):
+                        coords = [int(v) for v in coords]
+                        d = coords[1] - coords[0]
+                        cands = [sl[['Inline', 'Crossline', 'Samples'].index(name)]]
+                        for _ in range(3):
+                            a_, b_ = (int(v) for v in rng.integers(min(coords) - 2 * abs(d), max(coords) + 3 * abs(d), size=2))
+                            cands.append(slice([None, a_][int(rng.integers(2))], [None, b_][int(rng.integers(2))],
+                                               [None, int(rng.choice([d, 2 * d, -d, d + 1, 3 * d]))][int(rng.integers(2))]))
+                        for s_ in cands:
+                            ctx.stats['corr_requests'] += 1
+                            req = f"emul subax {','.join(str(v) for v in coords)} {Nn(s_.start)} {Nn(s_.stop)} {Nn(s_.step)}"
+                            ans = model.ask(req)
+                            try:
+                                acc._check_subscripts(s_, np.asarray(coords), name)
+                                a0_, st_, b0_ = acc._get_index_subscripts(s_, np.asarray(coords))
+                                if not (0 <= a0_ < b0_ <= len(coords)):
+                                    raise IndexError('empty or inverted index range (read_subvolume refuses)')
+                                real = ' '.join(str(v) for v in np.arange(a0_, b0_)[::int(st_)])
+                            except (IndexError, ValueError):
+                                real = 'err'
+                            if ans != real:
+                                ctx.corr_fail('Model.Emul/subvolumeAxis', req, ans, real, dict(inp, axis=name))
             _eq(ctx, 'tools.cube', lambda: seismic_zfp.tools.cube(fi.path), V, inp)
             # xarray backend
             try:
